@@ -333,7 +333,8 @@ def cells(quick):
                                     if quick and dr != 0 and (off not in (0.0, 1e-10) or m not in ("RK4Solver", "RK45CKSolver")):
                                         continue
                                     evs = [dict(kind=kind, tau=tau, s=1.0, dir=dr)]
-                                    out.append(dict(problem=pname, span=list(span), dt0=dt0, method=m, dense=dense, dtype="float64", events=evs, tol=1e-8, handover=tau + off))
+                                    # (the offset is measured ALONG the run: positive = the first call ends just past the root, in either direction of time)
+                                    out.append(dict(problem=pname, span=list(span), dt0=dt0, method=m, dense=dense, dtype="float64", events=evs, tol=1e-8, handover=tau + off * (1.0 if span[1] > span[0] else -1.0)))
     # ... and at the SECOND root of one function (it has fired before in the same run when the hand-over comes)
     for pname, spans, dt0 in (("lin", LIN_SPANS, 0.5), ("osc", OSC_SPANS, 0.25)):
         for span, taus in list(spans.items())[:2]:
